@@ -21,6 +21,7 @@ pub const MAX_CONN: MaxConn = MaxConn { };
 pub enum Ordering { Relaxed, SeqCst }
 /// the value of `MAX_CONN` at the time of the (one) load made during the verified call; PROPHECY name `stored_in_call`:
 /// the value the (one) store made during the verified call writes
+//@once store
 pub uninterp spec fn max_conn_configured() -> usize;
 impl MaxConn {
     pub uninterp spec fn stored_in_call(&self) -> Option<usize>;
